@@ -4,9 +4,40 @@ import os, sys, re, json, time, subprocess, hashlib, shutil, atexit, random, fcn
 
 VERIF = os.path.dirname(os.path.dirname(os.path.abspath(__file__)))
 REPO = os.environ.get("VERIF_REPO", "/repo")
-COQ = os.path.join(VERIF, "coq")
-MLGEN = os.path.join(VERIF, "ml", "gen")
 CACHE = os.path.join(VERIF, ".cache")
+
+def _tree_root():
+    """Where the Coq development, the regenerated coq/Gen files and the extracted runners of THIS run live.
+    For /repo that is /verif itself.  For another tree (VERIF_REPO, used to try changes without touching /repo) it
+    is a shadow /verif/.cache/tree-<hash>: a copy of the .v sources with its own Gen/, .vo files and runners, so
+    that checks of different trees can run side by side without overwriting each other's regenerated files."""
+    tree = os.path.realpath(REPO)
+    if tree == os.path.realpath("/repo"):
+        return VERIF, ""
+    tag = hashlib.sha1(tree.encode()).hexdigest()[:8]
+    root = os.path.join(CACHE, "tree-" + tag)
+    os.makedirs(os.path.join(root, "ml", "gen"), exist_ok=True)
+    os.makedirs(os.path.join(root, "translators"), exist_ok=True)
+    with open(os.path.join(CACHE, "tree-" + tag + ".sync.lock"), "w") as lf:
+        fcntl.flock(lf, fcntl.LOCK_EX)
+        first = not os.path.isdir(os.path.join(root, "coq", "Gen"))
+        cmd = ["rsync", "-a", "--delete", "--exclude=*.vo", "--exclude=*.vos", "--exclude=*.vok", "--exclude=*.glob",
+               "--exclude=.*.aux", "--exclude=Makefile*", "--exclude=_CoqProject", "--exclude=.lia.cache", "--exclude=.nia.cache"]
+        if not first:
+            cmd.append("--exclude=/Gen/")        # the shadow's Gen/ belongs to its own tree
+        subprocess.run(cmd + [os.path.join(VERIF, "coq") + "/", os.path.join(root, "coq") + "/"], check=True)
+        for f in os.listdir(os.path.join(VERIF, "translators")):
+            dst = os.path.join(root, "translators", f)
+            if f.endswith(".py") and not os.path.islink(dst):
+                os.symlink(os.path.join(VERIF, "translators", f), dst)
+        for d in ("lib", "props", "harness"):
+            if not os.path.islink(os.path.join(root, d)):
+                os.symlink(os.path.join(VERIF, d), os.path.join(root, d))
+    return root, "-" + tag
+
+ROOT, TREE_TAG = _tree_root()
+COQ = os.path.join(ROOT, "coq")
+MLGEN = os.path.join(ROOT, "ml", "gen")
 LINKLIBS = "-lz -lbz2 -llzma -lb2 -llz4 -lzstd -lcrypto -lxml2 -lacl -lssl -lpthread".split()
 
 _scratch = None
@@ -36,7 +67,7 @@ def sh(cmd, timeout=None, cwd=None, env=None, input=None, check=False):
 class Lock:
     def __init__(self, name):
         os.makedirs(CACHE, exist_ok=True)
-        self.path = os.path.join(CACHE, name + ".lock")
+        self.path = os.path.join(CACHE, name + TREE_TAG + ".lock")
     def __enter__(self):
         self.f = open(self.path, "w")
         fcntl.flock(self.f, fcntl.LOCK_EX)
@@ -83,7 +114,7 @@ def compile_harness(name, variant="plain", private=False, extra=(), sources=None
 def run_translators(names):
     """names: translator module names under translators/ ; each rewrites its coq/Gen file only if changed"""
     for n in names:
-        rc, out = sh([sys.executable, os.path.join(VERIF, "translators", n + ".py")], timeout=300)
+        rc, out = sh([sys.executable, os.path.join(ROOT, "translators", n + ".py")], timeout=300)
         if rc != 0:
             raise TranslatorError("translator %s failed:\n%s" % (n, out[-3000:]))
 
